@@ -269,7 +269,14 @@ func structWith(typ reflect.Type, tagKey, tagVal string) reflect.Value {
 
 func TestValue(t *testing.T) {
 	kit.Rec.Rule(rule)
-	rapid.Check(t, func(t *rapid.T) {
+	rapid.Check(t, propValue)
+}
+
+// FuzzValue drives the same property with coverage-guided native fuzzing (thorough tier).
+func FuzzValue(f *testing.F) { f.Fuzz(rapid.MakeFuzz(propValue)) }
+
+func propValue(t *rapid.T) {
+	{
 		cycles := rapid.IntRange(0, 3).Draw(t, "cyclesallowed") == 0
 		flat, valueHasPh := genConfig(t, cycles)
 		text, phs, nested := genText(t, true)
@@ -309,7 +316,7 @@ func TestValue(t *testing.T) {
 			labels = append(labels, "value-contains-placeholder")
 		}
 		kit.Rec.Case(desc, phs >= 2 || nested || valueHasPh, labels...)
-	})
+	}
 }
 
 // ---- prefix carrier: key selection ------------------------------------------------------------
